@@ -52,6 +52,11 @@ def _strategy(draw):
     spec = draw(gen.portfolios_all())
     spec["split"] = draw(st.one_of(st.none(), st.none(), st.none(), st.sampled_from(SPLITS)))
     spec["soft"] = draw(st.integers(0, 2)) == 0      # (only looked at for problems with binary variables)
+    if spec["split"] is None and draw(st.integers(0, 5)) == 0:
+        # optimised with the robust target over two price samples (the identities concern the reported value and the
+        # reported tables, whatever the target)
+        spec["robust_samples"] = [{k: (draw(gen.price_series(spec["grid"]["T"])) if k.startswith("p") and not k.startswith("pm") else v)
+                                   for k, v in spec["prices"].items()} for _ in range(2)]
     T = spec["grid"]["T"]
     r = draw(st.integers(0, 11))
     if r == 0:
@@ -120,7 +125,14 @@ def check(spec):
               "same_name_as_wrapped_asset" if spec.get("same_name_as_wrapped") else None)
     if is_err(r.op):
         return out.drop("setup_error:" + r.op.kind)
-    if r.is_mip and spec.get("soft") and not split:
+    if spec.get("robust_samples") and not split:
+        smp = [{k: np.array(v, float) for k, v in sm.items()} for sm in spec["robust_samples"]]
+        cs = eao_call(r.pf.create_cost_samples, smp, r.grid)
+        if is_err(cs):
+            return out.drop("cost_sample_error")
+        res = r.optimize(target="robust", samples=cs)
+        out.label("target:robust")
+    elif r.is_mip and spec.get("soft") and not split:
         # the relaxed problem (documented option make_soft_problem): the accounting identities hold for whatever
         # solution is reported, also with fractional values of the relaxed binary variables
         res = r.optimize(make_soft_problem=True)
